@@ -1,3 +1,4 @@
+\* writers hand over what the bucket holds (FreePut FALSE) but loads may fail on written keys: the only deviation left is "revive" (OnlyRevive)
 CONSTANT Threads = {"t1", "t2"}
 CONSTANT Keys = {"k1", "k2"}
 CONSTANT CvKeys = {"k1"}
